@@ -40,37 +40,63 @@ class Subgrid:
             else:
                 self.aliasing_returns.append((e, src(r)[:100]))
         self.returns_self = bool(self.aliasing_returns)
-        if len(good) != 1:
-            if self.aliasing_returns and not good:
+        if not good:
+            if self.aliasing_returns:
                 e, t = self.aliasing_returns[0]
                 raise AnalysisError(
                     'Grid.subgrid rows are not a nested list comprehension: '
                     f'`{t}` (outside the grammar; freshness and order unknown)')
-            raise AnalysisError(f'Grid.subgrid: {len(good)} comprehension returns')
-        _, r, rows, row = good[0]
-        self.rows_expr = rows
+            raise AnalysisError('Grid.subgrid: no comprehension return')
         self.fresh_outer = True
         self.fresh_rows = True
-        og = rows.generators[0]
-        if og.ifs or not isinstance(og.target, ast.Name):
-            raise AnalysisError('Grid.subgrid comprehension has filters / tuple targets')
-        self.outer_var, (self.inner_var, inner_iter, elt) = og.target.id, row
-        self.outer_range = self._range(og.iter)
-        self.inner_range = self._range(inner_iter)
-        # the element is a decision tree over conditional expressions whose leaves are
-        # either a cell of this grid or a padding object
-        self.elt = elt
-        leaves = self._leaves(elt)
-        cells = [l for l in leaves if self._is_cell(l)]
-        pads = [l for l in leaves if not self._is_cell(l)]
-        if len({src(c) for c in cells}) != 1:
-            raise AnalysisError(f'Grid.subgrid element `{src(elt)[:80]}` does not read one cell '
-                                f'of this grid')
-        self.inside_val = cells[0]
-        self.pad_vals = pads
-        self.pad_val = pads[0] if pads else None
-        # test(row, col): the element is the cell (not padding)
-        self.test = self._inside_test(elt) if pads else None
+        self.walk = w
+        models = []
+        for e, r, rows, row in good:
+            og = rows.generators[0]
+            if og.ifs or not isinstance(og.target, ast.Name):
+                raise AnalysisError('Grid.subgrid comprehension has filters / tuple targets')
+            inner_var, inner_iter, elt = row
+            leaves = self._leaves(elt)
+            cells = [l for l in leaves if self._is_cell(l)]
+            pads = [l for l in leaves if not self._is_cell(l)]
+            if len({src(c) for c in cells}) != 1:
+                raise AnalysisError(f'Grid.subgrid element `{src(elt)[:80]}` does not read one '
+                                    f'cell of this grid')
+            models.append({'event': e, 'rows': rows, 'outer_var': og.target.id,
+                           'inner_var': inner_var, 'outer_range': self._range(og.iter),
+                           'inner_range': self._range(inner_iter), 'elt': elt,
+                           'cell': cells[0], 'pads': pads,
+                           'test': self._inside_test(elt) if pads else ast.Constant(True),
+                           'guard': w.expand_formula(strip_iter(e.guard))})
+        base = models[-1]        # the last return is the general case
+        for m_ in models[:-1]:
+            same = m_['outer_range'][1:] == base['outer_range'][1:] and \
+                m_['inner_range'][1:] == base['inner_range'][1:]
+            import copy
+            from .inline import _Rename
+            ren = _Rename({m_['outer_var']: base['outer_var'], m_['inner_var']: base['inner_var']})
+            same = same and src(ren.visit(copy.deepcopy(m_['cell']))) == src(base['cell'])
+            if not same:
+                raise AnalysisError('Grid.subgrid: its return paths slice different ranges / cells')
+            m_['test'] = ren.visit(copy.deepcopy(m_['test']))
+        self.rows_expr = base['rows']
+        self.outer_var, self.inner_var = base['outer_var'], base['inner_var']
+        self.outer_range, self.inner_range = base['outer_range'], base['inner_range']
+        self.elt = base['elt']
+        self.inside_val = base['cell']
+        self.pad_vals = [p_ for m_ in models for p_ in m_['pads']]
+        self.pad_val = self.pad_vals[0] if self.pad_vals else None
+        # test(row, col, area bounds, grid size): the element is the cell (not padding), the
+        # return path being selected by its guard
+        test = base['test']
+        for m_ in reversed(models[:-1]):
+            try:
+                gexpr = ast.parse(show(m_['guard']), mode='eval').body
+            except SyntaxError:
+                raise AnalysisError('Grid.subgrid: return guard outside the grammar')
+            test = ast.IfExp(gexpr, m_['test'], test)
+        self.test = test if self.pad_vals else None
+        self.n_returns = len(models)
         self.cond = formula_of(self.test) if self.test is not None else None
 
     def _row(self, e: ast.AST):
@@ -117,6 +143,10 @@ class Subgrid:
         ap = self.area_param
         env = {f'{ap}.ymin': Aff.sym('ymin'), f'{ap}.ymax': Aff.sym('ymax'),
                f'{ap}.xmin': Aff.sym('xmin'), f'{ap}.xmax': Aff.sym('xmax')}
+        if isinstance(it, ast.Name) and hasattr(self, 'walk'):
+            it = self.walk.expand(it)
+        if isinstance(it, ast.Call) and src(it.func) in ('list', 'tuple') and len(it.args) == 1:
+            it = it.args[0]
         if isinstance(it, ast.Call) and isinstance(it.func, ast.Attribute) \
                 and src(it.func.value) == ap and it.func.attr in ('y_coordinates',
                                                                  'x_coordinates'):
